@@ -3,6 +3,7 @@ mod conv;
 mod cup;
 mod env;
 mod exec;
+mod gen;
 mod hist;
 mod mockserver;
 mod mon;
